@@ -224,7 +224,7 @@ def index_templates(ctx: Ctx, rule: str):
             continue
         ctx.check(m.group(1) == fam, rule, f.key("family-name"), f"defines {fam}_index", f"templates.c.{fam}_index generates a function called {m.group(1)}_index (the generated C function gets another family's name)", f.where())
         body = m.group(2)
-        lp = re.match(r"⟦for \$(\d+) in " + re.escape(pdata) + r"\.items\(\): (.*?)⟧ (.*)$", body)
+        lp = re.match(r"⟦for \$(\d+) in " + re.escape(pdata) + r"\.items\(\)(?:\|sep='\\n')?: (.*?)⟧ (.*)$", body)
         okl = lp is not None
         if okl:
             d, inner, tail = lp.group(1), lp.group(2), lp.group(3)
@@ -247,7 +247,7 @@ def index_templates(ctx: Ctx, rule: str):
             txt = sk.raw
             pvals = [p_ for p_ in f.params if p_.endswith("_values")]
             pv = pvals[0] if pvals else f"{fam}_values"
-            okarr = re.search(r"\{name\} = numpy\.array\(\[\{join\(', ', map\(str, " + re.escape(pv) + r"\)\)\}\], dtype=numpy\.float64\)", txt) is not None
+            okarr = re.search(r"\{name\} = numpy\.array\(\[⟦for \$(\d+) in " + re.escape(pv) + r"\|sep=', ': \{\$\1\}⟧\], dtype=numpy\.float64\)", txt) is not None
             ctx.check(okarr, rule, f.key("defaults-order"), f"numpy.array([<{pv} in order>], dtype=numpy.float64)", f"{short}::{fn}: the defaults array is not numpy.array([', '.join(map(str, {pv}))], dtype=numpy.float64)", f.where())
             if short.endswith("python.py"):
                 oks = f"{{name}}[{fam}_index(key)] = value" in txt
